@@ -20,6 +20,7 @@ import (
 	"verif/explore"
 	"verif/sim"
 	"verif/vrt"
+	"verif/vrt/vcontext"
 )
 
 // C11: malformed data from the network cannot crash the client.
@@ -246,6 +247,43 @@ func c11Direct(c *Ctx) {
 		} else {
 			outc["metarow-accepted"]++
 		}
+	}
+	// A5b: region-info values naming a table of 1 .. 40000 bytes (CacheRegions does not compare
+	// the table of a row with the one it asked for): parsed and put into a location cache
+	for _, tl := range []int{1, 255, 32763, 32764, 32765, 32766, 40000} {
+		unit := fmt.Sprintf("metarow-table-length|%d", tl)
+		if c.Filter != "" && c.Filter != unit {
+			continue
+		}
+		if !own() {
+			continue
+		}
+		n++
+		nt++
+		tn := bytes.Repeat([]byte{'T'}, tl)
+		rib, _ := proto.Marshal(&pb.RegionInfo{RegionId: proto.Uint64(9), TableName: &pb.TableName{Namespace: []byte("default"), Qualifier: tn}})
+		name := append(append([]byte{}, tn...), []byte(",,9")...)
+		row := &hrpc.Result{Cells: []*hrpc.Cell{
+			{Row: name, Family: []byte("info"), Qualifier: []byte("regioninfo"), Value: exactBuf(append([]byte("PBUF"), rib...))},
+			{Row: name, Family: []byte("info"), Qualifier: []byte("server"), Value: []byte("rs:1")},
+		}}
+		var reg hrpc.RegionInfo
+		var err error
+		m := catch(func() { reg, _, err = region.ParseRegionInfo(row) })
+		if m == "" && err == nil && reg != nil {
+			m = catch(func() {
+				vc := gohbase.VNewCache()
+				vc.Put(region.NewInfo(5, nil, []byte("t"), []byte("t,a,5"), []byte("a"), nil))
+				vc.Put(reg)
+				vc.Lookup(tn, []byte("a"))
+			})
+		}
+		if m != "" {
+			r.Direct(unit, true, "", &explore.Finding{Class: "meta-row-table-name-panic", Msg: fmt.Sprintf("an hbase:meta row whose region-info names a table of %d bytes\n%s", tl, firstLines(m, 12))},
+				func() any { return map[string]any{"unit": unit} })
+			continue
+		}
+		outc["metarow-table-length-ok"]++
 	}
 	// A6: scan responses whose results have inconsistent shapes, through the real scanner:
 	// every sequence of <=3 results (0-2 cells, partial flag set or not, row a or b) as the
@@ -943,8 +981,93 @@ func c11APIUnits(thorough bool) []*explore.Unit {
 	return units
 }
 
+// c11MetaAnswerUnits (tier W): the row that answers a region lookup in hbase:meta, with odd
+// contents - every combination of row key {empty, ",", "t,,1", "t,m,5.x.", a 40 KiB key} for the
+// first and for the other cells x region-info value {valid, offline (a split parent), valid
+// for a table whose name is 32765 bytes long, garbage} x with / without a server cell (in front of or behind the region-info cell). A get
+// with a deadline must return (a value, an error, or its deadline): no panic, nothing left
+// running. The same rows also answer CacheRegions.
+func c11MetaAnswerUnits() []*explore.Unit {
+	var units []*explore.Unit
+	mkInfo := func(table string, offline bool) []byte {
+		ri := &pb.RegionInfo{RegionId: proto.Uint64(5), TableName: &pb.TableName{Namespace: []byte("default"), Qualifier: []byte(table)}}
+		if offline {
+			ri.Offline, ri.Split = proto.Bool(true), proto.Bool(true)
+		}
+		b, _ := proto.Marshal(ri)
+		return append([]byte("PBUF"), b...)
+	}
+	long := strings.Repeat("T", 32765)
+	infos := map[string][]byte{"valid": mkInfo("t", false), "offline": mkInfo("t", true), "long-table": mkInfo(long, false), "long-table-offline": mkInfo(long, true), "garbage": []byte("PBUF\xff\xff")}
+	rows := map[string][]byte{"empty": {}, "comma": []byte(","), "first": []byte("t,,1"), "mid": []byte("t,m,5.x."), "huge": append([]byte("t,"), append(bytes.Repeat([]byte{'k'}, 40000), []byte(",5")...)...)}
+	for _, rn1 := range []string{"empty", "comma", "first", "mid", "huge"} {
+		for _, rn2 := range []string{"empty", "mid"} {
+			for _, in := range []string{"valid", "offline", "long-table", "long-table-offline", "garbage"} {
+				for _, withServer := range []bool{true, false} {
+					for _, api := range []string{"get", "cacheregions"} {
+						rn1, rn2, in, withServer, api := rn1, rn2, in, withServer, api
+						var returned bool
+						u := &explore.Unit{Name: fmt.Sprintf("metaanswer|%s|row1=%s|rows=%s|info=%s|server=%v", api, rn1, rn2, in, withServer), Bound: 0, Opt: vrt.Options{MaxSteps: 60000}}
+						u.Body = func() {
+							returned = false
+							cl := stdCluster()
+							answers := 0
+							cl.MetaHook = func(start []byte, cells []sim.KV) []sim.KV {
+								answers++
+								if answers > 3 {
+									return cells // the lookup gets a sane answer in the end
+								}
+								out := []sim.KV{{Row: rows[rn1], Family: []byte("info"), Qualifier: []byte("regioninfo"), Value: infos[in], TS: 1, Type: 4}}
+								if withServer {
+									out = append(out, sim.KV{Row: rows[rn2], Family: []byte("info"), Qualifier: []byte("server"), Value: []byte("rs1:1"), TS: 1, Type: 4})
+									if answers%2 == 0 {
+										// every second answer with the server cell in front
+										out[0], out[1] = out[1], out[0]
+									}
+								}
+								return out
+							}
+							w := newWorldW(cl, gohbase.FlushInterval(0), gohbase.RpcQueueSize(1))
+							if api == "get" {
+								ctx, cancel := vcontext.WithTimeout(context.Background(), 5*time.Minute)
+								g, _ := hrpc.NewGetStr(ctx, "t", "n")
+								w.client.Get(g)
+								cancel()
+							} else {
+								vrt.GoNamed("h:closer", func() { vrt.Sleep(5 * time.Minute); w.client.Close() })
+								w.client.CacheRegions([]byte("t"))
+							}
+							returned = true
+							w.client.Close()
+							vrt.Sleep(10 * time.Minute)
+							for _, c := range cl.WConns {
+								c.Server.Stop = true
+							}
+						}
+						u.Check = func(res *vrt.Result) *explore.Finding {
+							if f := baseFinding(res); f != nil {
+								f.Msg += "\n" + u.Name
+								return f
+							}
+							if res.Deadlock || !returned {
+								return &explore.Finding{Class: "api-call-blocked-on-odd-meta-row", Msg: fmt.Sprintf("%s: %v", u.Name, res.Blocked)}
+							}
+							if cb := clientBlocked(res); len(cb) > 0 {
+								return &explore.Finding{Class: "client-thread-left-blocked", Msg: fmt.Sprintf("%s: %v", u.Name, cb)}
+							}
+							return nil
+						}
+						units = append(units, u)
+					}
+				}
+			}
+		}
+	}
+	return units
+}
+
 func c11Units(thorough bool) []*explore.Unit {
-	units := c11APIUnits(thorough)
+	units := append(c11APIUnits(thorough), c11MetaAnswerUnits()...)
 	add := func(k c11Kind, name string, frame func(id uint32) []byte, valid, huge bool, codec compression.Codec) {
 		out := &c11Obs{}
 		full := k.name + "|" + name
@@ -1172,7 +1295,7 @@ func init() {
 	register(&Prop{
 		ID: "C11", Level: "fault_enumeration",
 		Technique:   "bounded exhaustive malformed-input enumeration: all short byte strings and the full boundary product of KeyValue length fields into the cellblock reader, every region-info value prefix/corruption, and structure-aware mutations / every truncation / byte flips of valid get, mutate, scan and multi response frames delivered through the real reader goroutine under the controlled scheduler",
-		Rule:        "A: all byte strings of length <=2 (thorough <=3), all strings <=6 (8) over {00,01,0e,7f,80,ff}, 10x10x10x8x6 boundary values of kvLen/keyLen/valueLen/rowLen/famLen on exact, short and two-cell buffers (capacity = length), truncations x declared counts, 60+ region-info values. B: for each of 4 response kinds ~45-60 field mutations (call id, exception parts, delimiters, cell_block_meta.length, associated_cell_count, cells_per_result vs flags, multi index / duplicate / result-and-exception / region-result count / nameless exceptions, frame length) singly (thorough: in pairs), every truncation, 5 values at every byte, damaged compressed cellblocks; frames whose counts drive allocations run in a sub-process with a 2 GiB limit. Oracle: no panic in any thread, no caller or reader stranded, later calls served or refused. Non-trivial = every malformed input. Part A also: every hbase:meta row KEY of length <=5 over {t , a 1 00 :} with a valid region-info value, parsed and then used like a looked-up region (put into a cache that knows a region of the table, looked up); every sequence of <=2 (thorough 3) scan-result shapes (0-2 cells, partial flag, row a/b) as a first response through the real scanner, partial results allowed or not (no panic, the scan ends). Tier W: structurally valid answers with odd contents through the public API - increment / append / get / put / check-and-put x {0-2 cells x value lengths 0,1,7,8,9; no result; no processed flag; cells in the protobuf as well as in the cellblock}: the call returns a value or an error.",
+		Rule:        "A: all byte strings of length <=2 (thorough <=3), all strings <=6 (8) over {00,01,0e,7f,80,ff}, 10x10x10x8x6 boundary values of kvLen/keyLen/valueLen/rowLen/famLen on exact, short and two-cell buffers (capacity = length), truncations x declared counts, 60+ region-info values. B: for each of 4 response kinds ~45-60 field mutations (call id, exception parts, delimiters, cell_block_meta.length, associated_cell_count, cells_per_result vs flags, multi index / duplicate / result-and-exception / region-result count / nameless exceptions, frame length) singly (thorough: in pairs), every truncation, 5 values at every byte, damaged compressed cellblocks; frames whose counts drive allocations run in a sub-process with a 2 GiB limit. Oracle: no panic in any thread, no caller or reader stranded, later calls served or refused. Non-trivial = every malformed input. Part A also: every hbase:meta row KEY of length <=5 over {t , a 1 00 :} with a valid region-info value, parsed and then used like a looked-up region (put into a cache that knows a region of the table, looked up); every sequence of <=2 (thorough 3) scan-result shapes (0-2 cells, partial flag, row a/b) as a first response through the real scanner, partial results allowed or not (no panic, the scan ends). Tier W: structurally valid answers with odd contents through the public API - increment / append / get / put / check-and-put x {0-2 cells x value lengths 0,1,7,8,9; no result; no processed flag; cells in the protobuf as well as in the cellblock}: the call returns a value or an error. Also: region-info values naming tables of 1..40000 bytes into parser and cache; tier W: the row answering a region lookup with odd contents (5 row keys for the first cell x 2 for the others x {valid, offline, huge table, huge table offline, garbage} region-info x server cell absent / behind / in front).",
 		Assumptions: []string{"allocation of a frame's own declared length (the 4-byte prefix) is inherent to the framing and not judged; prefixes above 1 MiB are not generated", "default thread schedule for part B (schedules are C03's subject)"},
 		Quick:       120 * time.Second, Thorough: 20 * time.Minute,
 		Units: c11Units, Direct: c11Direct,
